@@ -2,14 +2,17 @@
 from fractions import Fraction
 from .common import *
 
-ALLOWED_AXIOMS = []
+# C13_binary64_exact / C13_print_read_64 (every integer below 2^53 is a binary64) rest on the Floats library's
+# specification of the primitive floats; every other theorem is closed under the global context
+ALLOWED_AXIOMS = ["Prim2SF_SF2Prim", "FloatAxioms.Prim2SF_SF2Prim", "FloatAxioms.eqb_spec", "eqb_spec"]
 DETAIL = 0
 RULE = ("n from {0, 1, 2^k-1, 2^k, 2^k+1 (k<=62), 2^63-1024, 2^63-1, random} x 4 source x 4 target bases (both digit "
         "cases, both prefix cases, 'to/as/into' or no conversion word); every conversion is followed by its printed "
         "literal as a second line (read-back); fractional N around .5 (exact rational oracle, incl. "
         "0.49999999999999994 and 2^52-0.5); arithmetic + - * / with based literals (left type kept); a based literal "
         "held in a variable and converted; literals one past the i64 range (skipped, must not panic); "
-        "non-trivial = a based or converted number; distinct = distinct text")
+        "a few hex literals of the known class C13-hex-currency (digit + currency code in hex letters) with the normal "
+        "expectation; non-trivial = a based or converted number; distinct = distinct text")
 ASSUMPTIONS = ["integers above 2^53 are not exactly representable in binary64: expected values follow the rounding of "
                "i64 -> f64 (python int -> float is the same correctly rounded conversion) and the saturating f64 -> i64 "
                "cast when printing",
@@ -19,6 +22,30 @@ BASES = {"hex": (16, "0x", "Hexadecimal"), "octal": (8, "0o", "Octal"), "binary"
          "decimal": (10, "", "Decimal")}
 WORDS = {"hex": ["hex", "hexadecimal"], "octal": ["octal"], "binary": ["binary"], "decimal": ["decimal"]}
 I64_MAX = 2 ** 63 - 1
+
+
+def _currency_names():
+    import json, os
+    try:
+        cfg = json.load(open(os.path.join(os.environ.get("SMARTCALC_REPO", "/repo"), "src", "json", "config.json")))
+        return {k.lower() for k in cfg.get("currencies", {})} | {k.lower() for k in cfg.get("currency_alias", {})}
+    except Exception:
+        return {"aed", "bbd", "cad", "cdf", "xaf", "xcd"}
+
+
+CURRENCY_NAMES = _currency_names()
+
+
+def collides(text):
+    """KNOWN FINDING C13-K1 / class C13-hex-currency (known_findings.json; reproduced by the model, pinned by
+    Properties/C13.v C13_readback_refuted): the money regex `[0-9]+[ ]*[a-zA-Z]{2,}` runs before the number regexes, so
+    a hex literal in which a digit is followed by a run of letters that is a currency code is read as money: `0xCD`
+    (= 205, the text printed by `205 to hex`) evaluates to 0 XCD, `0xAF` (175) to 0 XAF, `0x1AED`, `0x2CAD5`, `0x3cdf`,
+    `0x57bbd1` give "Unknown calculation".  Codes made of hex letters: aed bbd cad cdf, and xaf xcd right after the
+    leading 0.  This is the narrow syntactic predicate of the class: the ordinary kinds avoid such literals, the kind
+    `hex-currency` generates them on purpose with the normal expectation."""
+    import re
+    return any(m.group(1).lower() in CURRENCY_NAMES for m in re.finditer(r"[0-9]([a-zA-Z]{2,})", text))
 
 
 def digits(n, base, upper=True):
@@ -63,6 +90,8 @@ def round_half_away(x):
 
 
 def two_lines(text, second, **meta):
+    if collides(second) and meta.get("kind") != "hex-currency":
+        return exec_case(text, "en", **meta)      # the conversion itself is fine; its read-back is the known class
     c = exec_case(text + "\n" + second, "en", **meta)
     c["meta"]["second"] = second
     return c
@@ -80,6 +109,9 @@ def generate(rng, tier):
 
     def add(c):
         key = c["ops"][-1]["text"]
+        if c["meta"]["kind"] != "hex-currency" and \
+                (collides(key.split("\n")[0]) or (c["meta"]["kind"] == "variable" and collides(key))):
+            return
         if key not in seen:
             seen.add(key)
             cases.append(c)
@@ -90,6 +122,29 @@ def generate(rng, tier):
         fv, iv = held(v)
         out = printed(iv, src)
         add(two_lines(lit(rng, v, src), out, kind="literal", value=bits(fv), nt=BASES[src][2], out=out))
+    # known class C13-hex-currency: hex literals spelling a currency code after a digit, normal expectation
+    for _ in range(8 if tier == "quick" else 60):
+        code = rng.choice(["AED", "BBD", "CAD", "CDF", "xAF", "xCD"])
+        tail = rng.choice(["", "", str(rng.randint(0, 9)), "%d%s" % (rng.randint(0, 9), digits(rng.randint(0, 4095), 16))])
+        if code[0] == "x":
+            hx = code[1:] + tail
+        else:
+            hx = str(rng.randint(1, 99999)) + code + tail
+        v = int(hx, 16)
+        if v >= 2 ** 53:
+            continue
+        out = "0x" + hx.upper()
+        form = rng.random()
+        if form < 0.4:
+            text = lit(rng, v, "hex")                                  # the literal itself
+        elif form < 0.7:
+            text = "%d to hex" % v                                     # fine; its read-back is in the class
+        else:
+            text = "%s to %s" % (lit(rng, v, "hex"), rng.choice(["octal", "binary"]))
+            add(exec_case(text, "en", kind="hex-currency", value=bits(float(v)), out=printed(v, text.split()[-1]),
+                          nt=BASES[text.split()[-1]][2]))
+            continue
+        add(two_lines(text, out, kind="hex-currency", value=bits(float(v)), nt="Hexadecimal", out=out))
     guard = 0
     while len(cases) < n and guard < 50 * n:
         guard += 1
@@ -142,7 +197,10 @@ def generate(rng, tier):
             out = printed(iv, src2)
             add(two_lines(lit(rng, v, src2), out, kind="literal", value=bits(fv), nt=BASES[src2][2], out=out))
         else:
-            # one past the range of the reader: not a literal any more; nothing is claimed but "no panic"
+            # one past the range of the reader (>= 2^63).  OBSERVED, reported, not claimed by the statement ("every
+            # non-negative integer the calculator accepts"): the repaired reader skips such a literal, and the digits
+            # are then read by the DECIMAL number regex, e.g. `0x8000000000000000` evaluates to the decimal number
+            # 8.000.000.000.000.000 and `0xFFFFFFFFFFFFFFFF` to 0.  Only "no panic" is checked here (and model = crate)
             src2 = rng.choice(["hex", "octal", "binary"])
             big = 2 ** 63 + rng.choice([0, 1, 2 ** 62, 2 ** 63 - 1, 2 ** 64, 2 ** 70])
             add(exec_case(lit(rng, big, src2), "en", kind="beyond-i64"))
@@ -193,8 +251,24 @@ def spec_check(c, rec, header):
 
 
 def known_class(c, rec, verdict, known):
-    return None
+    """a failure belongs to C13-hex-currency only when the line that failed holds a hex literal matching collides()"""
+    if "C13-hex-currency" not in {f["class"] for f in known}:
+        return None
+    lines_text = c["ops"][-1]["text"].split("\n")
+    if verdict.startswith("read-back"):
+        failed = lines_text[1] if len(lines_text) > 1 else ""
+    elif verdict.startswith("first line") or verdict.startswith("line:"):
+        failed = lines_text[0]
+    else:
+        return None
+    import re
+    hexlits = re.findall(r"0[xX][0-9a-fA-F]+", failed)
+    return "C13-hex-currency" if any(collides(h) for h in hexlits) else None
 
 
 def witness_fails(f, wc, rec, header):
-    return False
+    """the recorded witness still shows the recorded wrong output"""
+    lines = last_lines(rec)
+    if not lines or lines[-1] is None:
+        return False
+    return lines[-1].get("out") == f["observed"].get("out")
